@@ -10,9 +10,15 @@
 import glob, json, os
 
 _here = os.path.dirname(os.path.abspath(__file__))
-PROPS = {}
+ALL_PROPS = {}
 for _f in sorted(glob.glob(os.path.join(_here, "props", "C*.json"))):
-    PROPS[os.path.basename(_f)[:-5]] = json.load(open(_f))
+    ALL_PROPS[os.path.basename(_f)[:-5]] = json.load(open(_f))
+
+# properties whose check is finished, reviewed and silent on the current tree: only these
+# are claimed in MANIFEST.json (./check can still run the others while they are being built)
+READY = ["C01", "C08"]
+PROPS = ALL_PROPS
+CLAIMED = {k: v for k, v in ALL_PROPS.items() if k in READY}
 
 # commits in /repo that add the verif-tagged hook files (add-only)
 HOOK_COMMITS = ["e1d1440", "727a4a0", "ea54d78", "e665bd8", "669fc16", "60e2860", "80c9a9f"]
